@@ -1,31 +1,51 @@
 #!/usr/bin/env python3
-"""Regenerates MANIFEST.json from the harness modules (single source of truth for level notes)."""
-import json, os, sys, importlib
+"""Regenerates MANIFEST.json from the harness modules' INFO blocks (run with ./mk_manifest.sh)."""
+import json, os, sys, importlib, glob
 ROOT = os.path.dirname(os.path.abspath(__file__))
 sys.path.insert(0, ROOT)
-CHECKS = json.load(open(os.path.join(ROOT, 'manifest_src.json')))
-m = dict(
-  version=1,
-  setup_cmd='./bootstrap.sh && ./selftest.sh',
-  hooks=dict(guard='SCALES_VERIF', enable='unused: no hook in /repo is needed; every stub enters through a module global, a constructor argument or GEVENT_LOOP',
-             baseline_off_cmd='cd /repo && /venv/bin/python -m pytest -ra -q -p no:cacheprovider --timeout=900 --continue-on-collection-errors test/scales',
-             source_commits=[], add_only=True),
-  engines=[dict(name='symex', path='symex/', serves_properties=sorted(c['property_id'] for c in CHECKS['checks']),
-                kind_free_text='dynamic symbolic execution of the real scales code with z3 proxy values (SymInt/SymReal/SymBool/SymStr/SymBytes), '
-                               're-execution DFS with an incremental solver, real gevent on a virtual-time loop with symbolic timer due-times; '
-                               'counterexamples replayed concretely (real ints, exact rationals)')],
-  checks=[], not_applicable=CHECKS['not_applicable'], notes=CHECKS.get('notes', ''))
-for c in CHECKS['checks']:
-  pid = c['property_id']
-  m['checks'].append(dict(
+NA = json.load(open(os.path.join(ROOT, 'not_applicable.json')))
+props = [json.loads(l) for l in open(os.path.join(ROOT, 'properties.jsonl'))]
+checks = []
+claimed = []
+for p in props:
+  pid = p['id']
+  path = os.path.join(ROOT, 'harness', pid.lower() + '.py')
+  if not os.path.exists(path) or pid in NA:
+    continue
+  mod = importlib.import_module('harness.' + pid.lower())
+  info = mod.INFO
+  claimed.append(pid)
+  b = info.get('bounds', {})
+  text = ('Bounded symbolic execution of the real code, every branch and assertion decided by z3 (holds for ALL values within '
+          'the bounds, not sampled; not a proof beyond them). ' + info['explanation'] +
+          ' Bounds quick: %s. Bounds thorough: %s.' % (b.get('quick'), b.get('thorough')))
+  note = ('Trusted base: z3; the proxy-value semantics of symex/values.py (every counterexample is replayed concretely on the real code before it is reported); '
+          'stubs: ' + '; '.join(info.get('stubs', [])) + '. Assumptions: ' + '; '.join(info.get('assumptions', [])) +
+          '. Outside the claim: ' + '; '.join(info.get('outside', [])) + '.')
+  checks.append(dict(
     property_id=pid,
     quick_cmd='./check %s --tier quick' % pid,
     thorough_cmd='./check %s --tier thorough' % pid,
     evidence_file='evidence/%s.json' % pid,
     replay_cmd_template='./check --replay {path}',
     engine='symex',
-    level_claimed=dict(category='other', text=c['text'], design_ref=c.get('design_ref', 'DESIGN.md section 4')),
-    level_note=c['note'],
-    technique=c.get('technique', 'bounded symbolic execution of the real code; every branch and assertion decided by z3 within stated bounds; counterexamples replayed concretely')))
+    level_claimed=dict(category='other', text=text, design_ref='DESIGN.md section 4 (%s)' % pid),
+    level_note=note,
+    technique=info.get('technique', 'solver-based: dynamic symbolic execution of the real Python code with z3 proxy values (inputs, times, '
+                       'fault choices symbolic), assertions decided by SMT within stated bounds, counterexamples replayed concretely')))
+m = dict(
+  version=1,
+  setup_cmd='./bootstrap.sh && ./selftest.sh',
+  hooks=dict(guard='SCALES_VERIF', enable='unused: no hook in /repo is needed; every stub enters through a module global, a constructor argument or GEVENT_LOOP',
+             baseline_off_cmd='cd /repo && /venv/bin/python -m pytest -ra -q -p no:cacheprovider --timeout=900 --continue-on-collection-errors test/scales',
+             source_commits=[], add_only=True),
+  engines=[dict(name='symex', path='symex/', serves_properties=claimed,
+                kind_free_text='dynamic symbolic execution of the real scales code with z3 proxy values (SymInt/SymReal/SymBool/SymStr/SymBytes), '
+                               're-execution DFS with an incremental solver, real gevent on a virtual-time loop with symbolic timer due-times; '
+                               'counterexamples replayed concretely (real ints, exact rationals)')],
+  checks=checks,
+  not_applicable=[dict(property_id=p['id'], reason=NA.get(p['id'], 'check not built yet in this round (work in progress)'))
+                  for p in props if p['id'] not in claimed],
+  notes='Solver-based checking of the real code: see DESIGN.md. Exit 0 held / 1 VIOLATION / 2 inconclusive or harness error (never a pass).')
 json.dump(m, open(os.path.join(ROOT, 'MANIFEST.json'), 'w'), indent=1)
-print('MANIFEST.json: %d checks, %d not applicable' % (len(m['checks']), len(m['not_applicable'])))
+print('MANIFEST.json: %d checks (%s), %d not applicable' % (len(checks), ' '.join(claimed), len(m['not_applicable'])))
